@@ -9,6 +9,7 @@ LEVELS = {
     "C14": "other",
     "C13": "other",
     "C18": "other",
+    "C19": "other",
 }
 EXPLAIN = {}
 TRUSTED = [
